@@ -449,7 +449,12 @@ def _project(q, v):
 @st.composite
 def _detrend_cases(draw):
     k = draw(st.integers(0, 4))
-    spec = draw(gen.record_specs(min_n=k + 4, max_n=5000, allow_int=True))
+    if draw(st.integers(0, 24)) == 0:
+        # very long records (several minutes at 100-500 Hz): sizes at which index**k leaves the 53 / 63-bit integer range
+        k = draw(st.sampled_from([3, 4, 4, 4]))
+        spec = draw(gen.record_specs(min_n=52000, max_n=130000, kinds=["noise", "sines", "walk", "quake"], allow_zero_runs=False))
+    else:
+        spec = draw(gen.record_specs(min_n=k + 4, max_n=5000, allow_int=True))
     n = len(gen.build(spec))
     sec_kind = draw(st.sampled_from(["default", "pos", "neg"]))
     if sec_kind == "pos":
@@ -471,7 +476,7 @@ def _detrend_cases(draw):
         oracle="reference model (orthonormal polynomial basis on the sample grid, QR): removed part r = x - out has r - P_k r == 0 and "
                "a vanishing (k+1)-th finite difference; P_k out == 0; remove_poly(out) == out; remove_poly(x + p) == out; "
                "Signal.remove_poly == fns.remove_poly (all 1e-8 max|.|); remove_average subtracts mean(x[:section]) ((n+8) eps max|x|)",
-        require={"k=0": 0.03, "k=1": 0.03, "k=2": 0.03, "k=3": 0.03, "k=4": 0.03, "n>512": 0.05}, min_nontrivial=0.5)
+        require={"k=0": 0.03, "k=1": 0.03, "k=2": 0.03, "k=3": 0.03, "k=4": 0.03, "n>512": 0.05, "n>50000": 0.01}, min_nontrivial=0.5)
 def detrend(case, ctx):
     spec = case["rec"]
     k = int(case["k"])
@@ -483,7 +488,7 @@ def detrend(case, ctx):
         raise ValueError("case outside the domain of clause detrend")
     scale = float(np.max(np.abs(x)))
     tol = 1e-8 * scale
-    ctx.cls("k=%d" % k, "kind=" + spec["k"], gen.size_class(n))
+    ctx.cls("k=%d" % k, "kind=" + spec["k"], gen.size_class(n), "n>50000" if n > 50000 else None)
     if spec.get("as"):
         ctx.cls("as=" + spec["as"])
     q = _poly_basis(n, k)
